@@ -6,6 +6,7 @@ import (
 	"fmt"
 	"hash/fnv"
 	"sort"
+	"strings"
 	"time"
 
 	"github.com/anishathalye/porcupine"
@@ -240,4 +241,92 @@ func overlapInfo(ops []kop) (anyOverlap, writeOverlap bool, shape uint64) {
 		}
 	}
 	return anyOverlap, writeOverlap, h.Sum64()
+}
+
+// racePair names, for the signature, which operations of a minimised non-linearizable history
+// ran concurrently: writes that a later acknowledged write replaced before the first remaining
+// read are ignored; then "receive||remove" (also receive||receive, remove||remove) when two of
+// the remaining writes overlap, else "<write>||read" when a remaining write overlaps one of
+// any read of the full history (the minimisation may have dropped the read that did the damage,
+// e.g. a fetch that re-populates a cache), else "no-overlap" (a purely sequential anomaly on this
+// key: an acknowledged write is not seen - or seen again - by a later call although no call on
+// the same key ran beside it).
+func racePair(min, full []kop) string {
+	isRead := func(o kop) bool { return o.W == 0 || o.W == 4 || o.W == 5 }
+	wname := func(o kop) string {
+		switch {
+		case o.Kind == "init":
+			return "init"
+		case o.W == 2:
+			return "remove"
+		case o.W == 1 && (o.Kind == "receive" || o.Kind == "init"):
+			return "receive"
+		}
+		return o.Kind // deliver, deliver-claim, deliver-delete
+	}
+	var writes []kop
+	var firstRead int64 = 1 << 62
+	for _, o := range min {
+		if isRead(o) {
+			if o.Call < firstRead {
+				firstRead = o.Call
+			}
+		} else {
+			writes = append(writes, o)
+		}
+	}
+	var live []kop
+	for _, w := range writes {
+		shadowed := false
+		for _, v := range writes {
+			if !v.Unknown && v.Call > w.Ret && v.Ret < firstRead {
+				shadowed = true
+				break
+			}
+		}
+		if !shadowed {
+			live = append(live, w)
+		}
+	}
+	overlap := func(a, b kop) bool { return a.Call < b.Ret && b.Call < a.Ret }
+	pairs := map[string]bool{}
+	for i := range live {
+		for j := i + 1; j < len(live); j++ {
+			if overlap(live[i], live[j]) {
+				a, b := wname(live[i]), wname(live[j])
+				if a > b {
+					a, b = b, a
+				}
+				pairs[a+"||"+b] = true
+			}
+		}
+	}
+	if len(pairs) > 0 {
+		if pairs["receive||remove"] {
+			return "receive||remove"
+		}
+		var ks []string
+		for k := range pairs {
+			ks = append(ks, k)
+		}
+		sort.Strings(ks)
+		return ks[0]
+	}
+	wr := map[string]bool{}
+	for _, w := range live {
+		for _, r := range full {
+			if isRead(r) && overlap(w, r) {
+				wr[wname(w)+"||read"] = true
+			}
+		}
+	}
+	if len(wr) > 0 {
+		var ks []string
+		for k := range wr {
+			ks = append(ks, k)
+		}
+		sort.Strings(ks)
+		return strings.Join(ks, "+")
+	}
+	return "no-overlap"
 }
